@@ -333,6 +333,9 @@ func (c *ctx) reuseEvents() {
 			func(p interface{}, b []byte) error { return p.(*lorawan.DataPayload).UnmarshalBinary(upp, b) },
 			func(p interface{}) interface{} { return bs(p.(*lorawan.DataPayload).Bytes) }, c.bytesN(1+c.rnd.Intn(40)), c.bytesN(c.rnd.Intn(30))))
 	}
+	for _, ev := range backendReuseEvents(c) {
+		c.emit(ev)
+	}
 	c.emit(reuseEvent("phy", func() interface{} { return &lorawan.PHYPayload{} },
 		func(p interface{}, b []byte) error { return p.(*lorawan.PHYPayload).UnmarshalBinary(b) },
 		func(p interface{}) interface{} { return phyToVal(p.(*lorawan.PHYPayload)) }, c.validFrameBytes(), c.validFrameBytes()))
